@@ -102,12 +102,14 @@ def build_plan(choice: Choice, tier: str, family: str):
     p["default_context"] = p["worker_base"] == "FunctorWorker" and d(2, "default.context") == 1
     if p["factory"]:
         p["quota"] = [math.inf, 1, 2, 3][d(4, "quota")]
-        if family == "multi" and p["quota"] != math.inf and d(6, "quota.fraction") == 5:
+        if family != "lifecycle" and p["quota"] != math.inf and d(6 if family == "multi" else 12, "quota.fraction") == 5:
             p["quota"] += 0.5       # the parameter is a float: a fractional quota retires after ceil(quota) chunks
     else:
         p["quota"] = math.inf
     # join_timeout (C03 only): a retiring worker that is slow to exit must still be replaced
-    p["join_timeout"] = 1 if (family == "multi" and d(6, "join_timeout") == 5) else None
+    p["join_timeout"] = 1 if d(6 if family == "multi" else 10, "join_timeout") == 5 else None
+    # a factory whose create() is slow (yield / defer): replacements appear late
+    p["create_pause"] = [0, 0, 0, 1, 2][d(5, "create.pause")] if p["factory"] else 0
     if family == "single":
         # mostly one call per pool; a quarter of the runs make a second call so that per-call state that
         # survives a call is also seen by the single-call properties
@@ -135,6 +137,9 @@ def build_plan(choice: Choice, tier: str, family: str):
         call["lazy"] = lazy != 0
         # type of a non-lazy input: any finite iterable must do
         call["input_type"] = ["list", "tuple", "iterator", "range-like", "list"][d(5, "input.type")]
+        # 'exact': the caller takes exactly len(data) results (zip / islice style), never asks for StopIteration and
+        # drops the generator afterwards
+        call["consume"] = "exact" if d(6, "consume") == 5 else "full"
         call["pause_items"] = []
         call["pause_stop"] = 0
         if call["lazy"]:
@@ -173,7 +178,7 @@ def build_plan(choice: Choice, tier: str, family: str):
             if tot:
                 p["functor_raises"] = list(tot[d(len(tot), "fault.functor.item")])
         if p["begin_raises"] is None and p["functor_raises"] is None:
-            p["until_ready"] = d(4, "until_ready")  # 0 never, 1 at start, 2 between calls, 3 both
+            p["until_ready"] = d(5, "until_ready")  # 0 never, 1 at start, 2 between calls, 3 both, 4 inside the result loops
         else:
             p["plain_quota"] = None     # a dead worker would take its share of the capacity with it
             # what is raised: an ordinary exception, or a BaseException that is not an Exception
@@ -264,6 +269,11 @@ def scenario(k: Kernel, plan, obs):
 
     class Factory(FunctorWorkerFactory):
         def create(self):
+            if plan.get("create_pause") == 1:
+                k.switch("create.pause")
+            elif plan.get("create_pause") == 2 and k.current.role != "main":
+                k.fault("slow-create")
+                k.defer("create.defer")
             return Worker(plan["quota"])
 
     kw = {"context": None if plan.get("default_context") else ctx, "work_queue_maxsize": plan["wq_max"],
@@ -323,29 +333,36 @@ def run_body(k, plan, obs, pool, rec, data_iter, leftovers):
             obs["phase"] = "exiting"
             raise BodyError("body raised before any call")
         if plan["until_ready"] in (1, 3):
-            pool.until_all_ready()
-            note_ready(k, pool, rec)
+            ready_call(k, pool, rec)
         for c, call in enumerate(plan["calls"]):
             out = []
             obs["outs"].append(out)
             obs["call_state"].append("running")
             data = data_iter(c, call) if call["lazy"] else typed_input(c, call)
             gen = (pool.imap if call["ordered"] else pool.imap_unordered)(data, call["chunk"])
+            if call.get("consume") == "exact":
+                inner, gen = gen, take_exact(gen, call["n"])
             cp = plan["consumer_pause"]
             for v in gen:
                 out.append(v)
+                if plan["until_ready"] == 4 and len(out) in (1, 3):
+                    ready_call(k, pool, rec)
                 if cp == 1:
                     k.switch("consumer.pause")
                 elif cp == 2 and len(out) % 2 == 1:
                     k.defer("consumer.defer")
                     k.fault("slow-consumer")
+            if call.get("consume") == "exact":
+                # the caller is done with the generator: dropping it closes it (the with blocks inside unwind here)
+                gen = None
+                inner.close()
+                inner = None
             obs["call_state"][c] = "done"
             obs["leftover"].append(leftovers())
             obs["live_after_call"].append(sum(1 for p in pool.procs if p._popen is not None and p._popen.poll() is None))
             k.note(f"call {c} done n={len(out)}")
             if plan["until_ready"] in (2, 3) and c + 1 < len(plan["calls"]):
-                pool.until_all_ready()
-                note_ready(k, pool, rec)
+                ready_call(k, pool, rec)
         obs["phase"] = "exiting"
         if plan.get("body_raises") == 1:
             k.fault("with-body-raises")
@@ -374,11 +391,30 @@ def typed_input(c, call):
     return items
 
 
-def note_ready(k, pool, rec):
+def take_exact(inner, n):
+    for _ in range(n):
+        try:
+            yield next(inner)
+        except StopIteration:
+            return
+
+
+def ready_call(k, pool, rec):
+    """until_all_ready() with its oracle input: the workers that were in procs when it was CALLED (a successor that the
+    replace thread installs while the call is scanning cannot be demanded) must all have completed begin() on return."""
+    snapshot = list(pool.procs)
+    pool.until_all_ready()
+    note_ready(k, snapshot, rec)
+
+
+def note_ready(k, procs, rec):
     names = []
-    for p in pool.procs:
+    for p in procs:
         if p._popen is not None:
             names.append(p._popen.task_name)
+        else:
+            # a worker that has not even been started cannot have completed begin()
+            names.append(f"<unstarted wid {p.wid}>")
     rec("ready_returned", names)
 
 
@@ -499,12 +535,13 @@ def check_lifecycle(plan, obs, k, complete):
     for step, name, kind, detail in rec.events:
         if kind in ("begin", "begin!", "begin_done", "item", "item!", "end"):
             per.setdefault(name, []).append(kind)
+    unfinished_names = {t.name for t in k.tasks if not t.done}
     for name, evs in per.items():
         s = "".join({"begin": "B", "begin_done": "D", "begin!": "X", "item": "i", "item!": "Y", "end": "E"}[e]
                     for e in evs)
         full = re.fullmatch(r"B(D(i)*(iY)?|X)E", s)
         prefix = re.fullmatch(r"B?(D(i)*(iY)?|X)?E?", s) and (s == "" or s[0] == "B")
-        ok = bool(full) if (complete or s.endswith("E")) else bool(prefix)
+        ok = bool(full) if ((complete and name not in unfinished_names) or s.endswith("E")) else bool(prefix)
         if s.count("E") > 1 or s.count("B") > 1:
             ok = False
         if not ok:
@@ -640,7 +677,7 @@ def evaluate(prop, plan, obs, k: Kernel, kind, info):
         viol = list(lv)
         expected_stall = plan["functor_raises"] is not None
         if complete:
-            if obs.get("unfinished_at_exit"):
+            if obs.get("unfinished_at_exit") and not plan.get("join_timeout"):
                 viol.append({"class": "left-running", "site": "process",
                              "message": f"processes still running after __exit__: {obs['unfinished_at_exit']}"})
         elif stalled and not expected_stall:
